@@ -11,8 +11,18 @@ class _FakeTask:
     def __init__(self, v):
         self.v = v
 
-    def get(self):
+    def get(self, timeout=None):
         return self.v
+
+    # the rest of multiprocessing.pool.AsyncResult's interface: the task ran synchronously, so it is always finished
+    def ready(self):
+        return True
+
+    def successful(self):
+        return True
+
+    def wait(self, timeout=None):
+        return None
 
 
 class FakePool:
